@@ -212,7 +212,7 @@ def run(ck):
 
 def _readonly(ck, inst, thunk):
     with ck.guard("C14.R3", inst):
-        paths = paths_of(ck.program, thunk, max_paths=400, sticky=True)
+        paths = paths_of(ck.program, thunk, max_paths=100, sticky=True)
         ck.note_functions(functions_in_paths(paths))
         bad = []
         unk = []
